@@ -46,3 +46,53 @@ func VP_C07_conn_vs_packet() {
 	}
 	vp.Cover("end")
 }
+
+// vpIdentStream is a cipher.Stream that changes nothing, so that the bytes on
+// the wire of an "encrypted" Conn stay comparable with the packet layer.
+type vpIdentStream struct{}
+
+func (vpIdentStream) XORKeyStream(dst, src []byte) { copy(dst, src) }
+
+// options set in either order: the threshold given to SetThreshold is applied in
+// both directions whether SetCipher is called before it, after it or not at all
+// (login enables encryption and compression in an order the server chooses).
+func VP_C07_conn_option_order() {
+	vp.SizeBound(64)
+	vp.PoolMode(1)
+	t := vpConnThreshold()
+	pa, pb := vpPipe()
+	a, b := WrapConn(pa), WrapConn(pb)
+	switch vp.Choice(3) {
+	case 0:
+		a.SetCipher(vpIdentStream{}, vpIdentStream{})
+		b.SetCipher(vpIdentStream{}, vpIdentStream{})
+		a.SetThreshold(t)
+		b.SetThreshold(t)
+	case 1:
+		a.SetThreshold(t)
+		b.SetThreshold(t)
+		a.SetCipher(vpIdentStream{}, vpIdentStream{})
+		b.SetCipher(vpIdentStream{}, vpIdentStream{})
+	default:
+		a.SetThreshold(t)
+		a.SetCipher(vpIdentStream{}, vpIdentStream{})
+		a.SetThreshold(t)
+		b.SetThreshold(t)
+	}
+	p := pk.Packet{ID: vpSmallID(), Data: vp.Bytes(vp.Choice(4))}
+	if vp.Choice(2) == 0 {
+		vp.Assert(a.WritePacket(p) == nil, "WritePacket")
+		var q pk.Packet
+		r := bytes.NewReader(*pa.out)
+		vp.Assert(q.UnPack(r, t) == nil && r.Len() == 0, "a frame written by a Conn is one frame of the packet layer")
+		vp.Assert(q.ID == p.ID && string(q.Data) == string(p.Data), "a frame written by a Conn unpacks to the packet")
+	} else {
+		var w bytes.Buffer
+		vp.Assert(p.Pack(&w, t) == nil, "Pack")
+		_, _ = pa.Write(w.Bytes())
+		var q pk.Packet
+		vp.Assert(b.ReadPacket(&q) == nil, "a frame packed by the packet layer is read by a Conn")
+		vp.Assert(q.ID == p.ID && string(q.Data) == string(p.Data), "a frame packed by the packet layer is read by a Conn")
+	}
+	vp.Cover("end")
+}
